@@ -67,17 +67,20 @@ CLAIMED = {
         "note_extra": "PARTIAL: the attempt loop (timing of completion) is exercised, not modelled; 'node stays alive' is observed through panics/API liveness of the runs.",
     },
     "C04": {
-        "text": "Proved (props/C04.v): the timer fires entries in (deadline, id) order and removal takes exactly the fired/cancelled "
-                "entry; a search on a node with no good node closes in the step that starts it, having sent nothing; events other "
-                "than queries/responses are quiet; the silent case closes exactly 3 s after its query in the model (computed "
-                "example). Decided per run, not proved for all runs (partial): the quantitative bounds - every stream closes; exactly "
-                "3 s after the first query under silence; within 1.5 s x (1 + distinct nodes) + 1.5 s in general; never while a query "
-                "is younger than 1.5 s and unanswered; an answer within 1.5 s is accepted - are measured on the virtual clock of "
-                "simulated runs of the real node with silent / error / garbage responders, loss, duplication, send-failure windows "
-                "and ever-closer worlds, and every such run is also replayed through the Coq lookup model (exact agreement), which "
-                "uses the 1.5 s constants read from the source.",
+        "text": "Proved (props/C04.v, 27 theorems, every list of events): c04_no_stuck_search - in every reachable state every open "
+                "search is ongoing and owns a pending timer entry (a query timeout for each outstanding query, or its end-game entry) due "
+                "within 1.5 s of the last handled event, so no search can wait forever once due timers are served; c04_stream_end_iff / "
+                "_once / _accounting - a stream end is emitted exactly when a search leaves the open set (or completes in the step that "
+                "starts it), once; c04_end_is_final - after its end no yield and no second end for that search; c04_stream_end_cause / "
+                "c04_closed_in_endgame / c04_not_endgame_stays_open - a search is closed only by the firing of its own end-game timer "
+                "(never by an answer, a query timeout or any other event), i.e. not early; the timer fires in (deadline, id) order and "
+                "removal takes exactly the fired/cancelled entry; a search on a node with no good node closes in the step that starts "
+                "it. Hypothesis of the first group: activity ids distinct and within 5 bytes for the activities in use (what C19 "
+                "proves of the real generator). Decided per run (partial): the wall-clock bounds (3 s under silence; 1.5 s per distinct "
+                "node + 3 s) on the virtual clock of simulated runs with silent / error / garbage responders, loss, duplication, "
+                "send-failure windows and ever-closer worlds; every such run is replayed through the Coq model.",
         "ref": "7/C04", "axioms": "none",
-        "note_extra": "PARTIAL: the termination/no-early-close bounds are checker-decided on explored runs; the missing theorem is the invariant 'a live search always has a pending timer that will wake it' plus the distance-to-beat descent argument.",
+        "note_extra": "PARTIAL: that due timers are served on time is the runtime's part (tokio); the quantitative bounds are measured on explored runs.",
     },
     "C03": {
         "text": "Safety theorems (props/C03.v) over the Gallina lookup/handler model, for ARBITRARY states and events (any datagram from "
